@@ -508,6 +508,85 @@ pub fn unique(_args: &[String]) -> i32 {
     0
 }
 
+/// C10 (ON clause): the predicate cases of dt-filter used as the ON condition of a join of l(c0) and r(c1), for the four
+/// join kinds.  Output per (case, kind, embedding): for every pair of universe rows the truth value of the predicate and
+/// the membership of each side's value in the type of the corresponding output column of the real Join.
+pub fn joinfilter(_args: &[String]) -> i32 {
+    use qrlew::builder::{Ready, With};
+    use qrlew::relation::{Field, Join, Relation, Schema, Variant as _};
+    fn qualify(e: &Expr) -> Expr {
+        match e {
+            Expr::Column(c) => {
+                let name: String = c.last().unwrap().to_string();
+                let side = if name == "c0" { Join::left_name() } else { Join::right_name() };
+                Expr::qcol(side, &name[..])
+            }
+            Expr::Function(f) => Expr::Function(qrlew::expr::Function::new(f.function(), f.arguments().iter().map(|a| Arc::new(qualify(a))).collect())),
+            other => other.clone(),
+        }
+    }
+    let mut cases = read_cases();
+    let header = cases.remove(0);
+    let n = header["n"].as_u64().unwrap() as usize;
+    let mut out = Out::new();
+    for e in more_embeddings() {
+        for (ci, c) in cases.iter().enumerate() {
+            let cols: Vec<J> = c["cols"].as_array().unwrap().clone();
+            for kind in ["inner", "left", "right", "full"] {
+                let r = guarded(|| {
+                    let pred = conc_expr(&c["pred"], &e);
+                    let on = qualify(&pred);
+                    let l: Relation = Relation::table().name("l").schema(Schema::new(vec![Field::new("c0".to_string(), conc_type(&cols[0], &e), None)])).size(10).build();
+                    let rr: Relation = Relation::table().name("r").schema(Schema::new(vec![Field::new("c1".to_string(), conc_type(&cols[1], &e), None)])).size(10).build();
+                    let join = guarded(|| -> Relation {
+                        let b = Relation::join().left(l.clone()).right(rr.clone());
+                        match kind {
+                            "inner" => b.inner(on.clone()),
+                            "left" => b.left_outer(on.clone()),
+                            "right" => b.right_outer(on.clone()),
+                            _ => b.full_outer(on.clone()),
+                        }
+                        .build()
+                    });
+                    let (jo, lt, rt) = match &join {
+                        Ok(j) => ("ok", Some(j.schema()[0].data_type()), Some(j.schema()[1].data_type())),
+                        Err(_) => ("panic", None, None),
+                    };
+                    let inside = |t: &Option<DataType>, v: &Value| -> bool {
+                        match t {
+                            Some(t) => member(t, v) || matches!(t, DataType::Optional(o) if member(o.data_type(), v)),
+                            None => false,
+                        }
+                    };
+                    let nullable = |t: &Option<DataType>| matches!(t, Some(DataType::Optional(_)) | Some(DataType::Any));
+                    let mut rows = vec![];
+                    for row in rows_of(&cols, n, 64) {
+                        let (lv, rv) = (conc_value(&row[0], &e), conc_value(&row[1], &e));
+                        let sv = Value::structured(vec![("c0".to_string(), lv.clone()), ("c1".to_string(), rv.clone())]);
+                        let pv = match guarded(|| pred.value(&sv)) {
+                            Ok(Ok(Value::Boolean(b))) => if *b.deref() { "true" } else { "false" },
+                            Ok(Ok(Value::Optional(o))) => match o.as_deref() {
+                                Some(Value::Boolean(b)) => if *b.deref() { "true" } else { "false" },
+                                None => "null",
+                                _ => "other",
+                            },
+                            Ok(Ok(_)) => "other",
+                            Ok(Err(_)) => "err",
+                            Err(_) => "panic",
+                        };
+                        rows.push(json!({"row": row, "pred": pv, "l_in": inside(&lt, &lv), "r_in": inside(&rt, &rv)}));
+                    }
+                    json!({"case": ci, "emb": e.name, "kind": kind, "join": jo, "l_nullable": nullable(&lt), "r_nullable": nullable(&rt),
+                           "l_type": lt.as_ref().map(|t| t.to_string()), "r_type": rt.as_ref().map(|t| t.to_string()), "rows": rows})
+                });
+                out.put(&r.unwrap_or_else(|p| json!({"case": ci, "emb": e.name, "kind": kind, "join": "harness_panic", "msg": p, "l_nullable": false, "r_nullable": false, "rows": []})));
+            }
+        }
+    }
+    out.flush();
+    0
+}
+
 /// C10: filter narrowing.  stdin: {"n": N} then {"pred": term, "cols": [types]} per line.
 pub fn filter(_args: &[String]) -> i32 {
     let mut cases = read_cases();
